@@ -123,6 +123,25 @@ let constructors : (string * ((z list -> z list result) * (z list -> z list resu
   "mpls_stack", (mpls_stack_new, mpls_stack_new_view);
 ]
 
+(* set_payload of the thirteen packet types that have one (Packet/Payload.v): buffer -> payload -> buffer.
+   The model is entered through Payload.set_payload_of (Net/Wire.v has an ipv4_set_payload / udp_set_payload of its
+   own and the extraction renames the clashing names). *)
+let payload_types : (string * payload_type) list = [
+  "ipv4", PtIpv4;
+  "ipv6", PtIpv6;
+  "udp", PtUdp;
+  "tcp", PtTcp;
+  "icmp4_echo_request", PtIcmp4EchoRequest;
+  "icmp4_echo_reply", PtIcmp4EchoReply;
+  "icmp4_time_exceeded", PtIcmp4TimeExceeded;
+  "icmp4_dest_unreachable", PtIcmp4DestUnreachable;
+  "icmp6_echo_request", PtIcmp6EchoRequest;
+  "icmp6_echo_reply", PtIcmp6EchoReply;
+  "icmp6_time_exceeded", PtIcmp6TimeExceeded;
+  "icmp6_dest_unreachable", PtIcmp6DestUnreachable;
+  "ext_object", PtExtObject;
+]
+
 let show (f : 'a -> string) (r : 'a result) : string =
   match r with Ok v -> f v | Err _ -> "err" | Fault x -> "fault:" ^ fault_name x
 
@@ -156,6 +175,14 @@ let run_case (toks : string list) : string option =
         | T4 (_, s) -> s (if other then I4Other (zi v) else icmp4_type_from (zi v)) buf
         | T6 (_, s) -> s (if other then I6Other (zi v) else icmp6_type_from (zi v)) buf
         | C (_, s) -> s (if other then CnOther (zi v) else class_num_from (zi v)) buf))
+  | ["c12pay"; ty; buf; payload] ->
+    (* the implementation can only refuse by panicking and the harness prints every panic as `fault:panic`:
+       a model fault (always OutOfBounds here, theorem c12_set_payload_total) is printed the same way, so the
+       comparison is exact; an error value would be printed `err` and never matches *)
+    Some (match set_payload_of (List.assoc ty payload_types) (unhex buf) (unhex payload) with
+        | Ok b -> hex b
+        | Err _ -> "err"
+        | Fault _ -> "fault:panic")
   | [("new" | "new_view" as op); ty; len] ->
     let (n, nv) = List.assoc ty constructors in
     let buf = List.init (int_of_string len) (fun _ -> z_of_int 0) in
